@@ -242,7 +242,9 @@ impl ShardFileManager {
 
                 let old_chunk_lookup_size = shard_col.chunk_lookup.len();
 
-                if update_chunk_lookup {
+                // The chunk lookup stores the position of the shard in 16 bits; shards beyond that are
+                // not indexed, as a truncated position would point the lookup at the wrong shard.
+                if update_chunk_lookup && shard_index <= u16::MAX as usize {
                     let insert_hashes = s.read_all_truncated_hashes()?;
 
                     shard_col.chunk_lookup.reserve(insert_hashes.len());
